@@ -15,6 +15,7 @@ import (
 	"pgregory.net/rapid"
 	"regexp"
 	"strconv"
+	"strings"
 )
 
 type Case struct {
@@ -530,9 +531,12 @@ func TestC09(t *testing.T) {
 			}
 			fc := &Case{G: c.G, Inputs: [][]int{vs[i].bad}, Lox: c.Lox}
 			detail := vs[i].detail
-			fc = shrinkCase(run, fc, vs[i].facet)
-			if v2, err := eval(run, []*Case{fc}, false); err == nil && v2[0].bad != nil {
-				detail = v2[0].detail
+			if !strings.Contains(detail, "TIMEOUT") {
+				// (a parse that never returns costs a wall-clock guard per candidate: reported unshrunk)
+				fc = shrinkCase(run, fc, vs[i].facet)
+				if v2, err := eval(run, []*Case{fc}, false); err == nil && v2[0].bad != nil {
+					detail = v2[0].detail
+				}
 			}
 			report(fc, detail)
 			return
